@@ -30,6 +30,7 @@ func init() {
 		onErrorCancelRule(c, "C11/ONERROR-CANCEL")
 		initBeforePublishRule(c, "C11/INIT-BEFORE-PUBLISH", "server", 1)
 		connRegistriesRule(c, "C11/CONN-REGISTRIES")
+		listenerAdmissionRule(c, "C11/LISTENER-ADMISSION")
 		lockOrderRule(c, "C11/LOCK-ORDER", 3)
 		c11OrphanSession(c)
 		c11CloseRegistered(c)
